@@ -127,11 +127,7 @@ def pins_effector(out):
     out.append("Definition pin_eff_init_false : list text := %s." % tlist(arms_false))
     out.append("Definition pin_eff_init_true : list text := %s." % tlist(arms_true))
     out.append("Definition pin_eff_init_other : list text := %s." % tlist(other))
-    pin_bodies(out, "eff", [
-        ("new_stream", "src/effector.rs", r"fn\s+new_stream\s*\("),
-        ("next", "src/effector.rs", r"fn\s+next\s*\("),
-        ("push_effect", "src/effector.rs", r"fn\s+push_effect\s*\("),
-    ])
+    # (no body hashes for effector.rs: translated every run, PinChecks/PcEffectorGen.v)
     pbody = fn_body(src, r"fn\s+push_effect\s*\(") or ""
     cmp_lits = [rust_unescape(x) for x in re.findall(r"self\.expr\s*==\s*" + STR, pbody)]
     out.append("Definition pin_eff_push_exprs : list text := %s." % tlist(cmp_lits))
